@@ -141,3 +141,18 @@ def cases(tier, seed, ctx=None):
         to = rng.choice([-1, -1, n - 1, n + 3, 0])
         fl = [1 if rng.chance(1, 12) else 0 for _ in range(5)]
         yield ("copier", [content, seq, bs0, 0 if seq else frm, -1 if seq else to, fl, ops + [[1]] * 3, [14, 9]], "copier-api-history")
+    # an upload handler: the request body is copied out of the socket by a QIODeviceCopier while the application may close the socket
+    # from its own readyRead slot (which runs before the copier's) or the destination fails; with and without a Content-Length
+    for _ in range(60 if quick else 800):
+        body = rng.bytes(rng.choice([0, 1, 20, 300, 5000, 70000]))
+        head = b"POST /upload HTTP/1.1\r\nHost: h" + (b"\r\nContent-Length: %d" % len(body) if rng.chance(3, 4) else b"")
+        hl = len(head) + 4
+        segs = [hl + rng.range(0, min(len(body), 10))] + [rng.choice([1, 7, 100, 4096, 20000]) for _ in range(rng.range(0, 6))]
+        yield ("sockcopy", [head, body, segs, rng.choice([0, 0, 1, 2, 3]), rng.choice([-1, -1, 0, 5, 1000])], "upload-through-a-copier")
+
+    # over a real connection, TLS and plain: (a) the application waits for the write-progress notifications of a 3000-byte body
+    # before it closes - they add up to 3000; (b) a 3 MiB answer to a client that reads slowly - the server's thread keeps returning
+    # to its event loop meanwhile
+    for j in range(2 if tier == "quick" else 10):
+        yield ("tlsraw", [b"GET /notify HTTP/1.1\r\nHost: h\r\n\r\n", 0, 0, [], 1, 0, 0], "%s-notifications-before-close" % 'tlsraw')
+    yield ("tlsraw", [b"GET /big HTTP/1.1\r\nHost: h\r\n\r\n", 0, 0, [], 1, 0, 2], "%s-slow-reader" % 'tlsraw')
